@@ -104,6 +104,9 @@ def build_case(cid, rng, dynamic, force_async=False, no_send=False, probes=False
         at = (t.async_trait + "\n") if t.async_trait else ""
         # (dynamic blocks are written `ref`, or with the older spelling `dyn`)
         L.append("#[::entrait::entrait%s] /*@impl_%s*/\n%simpl TrImpl for %s {" % (rng.choice(["(ref)", "(ref)", "(dyn)"]) if dynamic else "", tname.replace("::", "_"), at, tname))
+        if rng.random() < 0.12:
+            # inner attributes open the block's body
+            L.append("    " + rng.choice(["#![allow(unused_variables)]", "//! inner docs of the block", "#![allow(clippy::all, dead_code)]"]))
         for m in t.methods:
             k = rng.randint(0, len(helpers))
             hs = rng.sample(helpers, k)
